@@ -15,6 +15,7 @@ MCScripts == {
   <<[t |-> "Partial"]>>,                                      \* garbage without terminator
   <<H("", "unknown", 0, TRUE, FALSE, FALSE), B(5)>>,         \* Expect + unknown length
   <<H("", "unknown", 0, FALSE, FALSE, TRUE), B(2)>>,         \* gzip
+  <<H("", "known", 3, FALSE, FALSE, TRUE), B(3)>>,           \* gzip with a declared length
   <<H("", "none", 0, FALSE, FALSE, FALSE), H("", "none", 0, FALSE, FALSE, FALSE)>>  \* two pipelined bodiless
 }
 Resp(kind, code, dup) == [op |-> "WriteResponse", resp |-> [kind |-> kind, code |-> code, dup |-> dup]]
